@@ -92,7 +92,17 @@ package handler
 //@   ensures [oversize-error-body-gets-a-substitute] delta(SendErrorTooLarge) >= 1 ==> delta(SendError) == 2
 //@   ensures [oversize-413] delta(SendErrorTooLarge) == 1 && delta(SendErrorOK) == 1 ==> delta(RtResponseSent) == 1 && delta(Render413) == 1 && delta(RenderAccepted) == 0 && delta(RenderInterop) == 0
 
+// C18 ("fails ... with the runtime's sanitised error type if it reports a restore (or init) error"): while the restore hook runs
+// (state Restoring) a failure reported on the init-error endpoint is taken as the restore error, with the sanitised type of the
+// request; in every other state it is an init error
+//@ event RtStateSeenRestoring = ret core.(*Runtime).GetState when r0 == a0.RuntimeRestoringState
+//@ event RtStateSeenOther = ret core.(*Runtime).GetState when r0 != a0.RuntimeRestoringState
+//@ event ErrorTypeSanitised = ret fatalerror.GetValidRuntimeOrFunctionErrorType
+//@ event ErrorTypeSanitiseCall = call fatalerror.GetValidRuntimeOrFunctionErrorType
+//@ spec firstStateSeenWasRestoring() bool = delta(RtStateSeenRestoring) >= 1 && (delta(RtStateSeenOther) == 0 || first(RtStateSeenRestoring) < first(RtStateSeenOther))
 //@ func (*initErrorHandler).ServeHTTP
+//@   ensures [C18: an-init-error-during-the-restore-hook-is-the-restore-error] delta(NoRuntime) == 0 ==> (firstStateSeenWasRestoring() <==> delta(RtRestoreError) == 1)
+//@   ensures [C18: the-restore-error-carries-the-sanitised-type-of-the-request] delta(RtRestoreError) == 1 ==> delta(ErrorTypeSanitised) == 1 && lastarg(ErrorTypeSanitiseCall, 0) == hdr(request.Header, "Lambda-Runtime-Function-Error-Type") && lastarg(RtRestoreError, 1).Type == lastret(ErrorTypeSanitised)
 //@   ensures [C12: a-call-without-a-runtime-is-refused-403] delta(NoRuntime) == 1 ==> delta(RtInitError) + delta(RtRestoreError) == 0 && delta(Render403) == 1 && noSideEffects()
 //@   ensures [at-most-one-transition] delta(NoRuntime) == 0 ==> delta(RtInitError) + delta(RtRestoreError) == 1
 //@   ensures [refused-403] delta(RtInitErrorRefused) == 1 || delta(RtRestoreErrorRefused) == 1 ==> delta(Render403) == 1 && noSideEffects()
